@@ -50,7 +50,7 @@ PLAN = {
         unit("side", "TestC09OldFile", 150, 2000, seed_off=600),
         unit("sys", "TestC09Sys", 3, 20, replay="TestReplayC09Sys", seed_off=950, shrinktime="30s", workers={"quick": 8, "thorough": 16})]},
     "C10": {"level": "exploration", "units": [unit("side", "TestC10", 600, 12000, replay="TestReplayC10"),
-        unit("sys", "TestC10Sys", 3, 20, replay="TestReplayC10Sys", seed_off=950, shrinktime="30s", workers={"quick": 8, "thorough": 16})]},
+        unit("sys", "TestC10Sys", 3, 8, replay="TestReplayC10Sys", seed_off=950, shrinktime="30s", workers={"quick": 8, "thorough": 8})]},
     "C11": {"level": "exploration", "units": [
         unit("cfgh", "TestC11", 600, 10000, replay="TestReplayC11", shrinktime="30s"),
         unit("side", "TestC11Concurrent", 15, 400, seed_off=930)]},
